@@ -218,6 +218,17 @@ def finish(prop, mod, recs, tier, seed, t0, replay_fn, verbose=False, bounded=No
         "paths_explored": sum(r.get("paths", 0) for r in recs),
         "explanation": getattr(mod, "EXPLANATION", ""),
     }
+    if baseline:
+        cur = set()
+        for rec in recs:
+            for o in rec["obligations"]:
+                if o["kind"] not in ("vacuity", "canary"):
+                    cur.add(norm_name(o["name"]))
+        coverage["baseline"] = {"file": f"baseline/{prop}.{tier}.json", "names": len(baseline),
+                                "names_generated_again": len(cur & set(baseline)),
+                                "names_not_generated_this_run": sorted(set(baseline) - cur)[:20],
+                                "rule": "an obligation discharged on the pinned tree that is undecided now (after a second attempt with "
+                                        "a longer solver budget) is reported as VIOLATION ... no-failing-input-found"}
     coverage.update(b_cov)
     level = "proof"
     if bounded_only:
